@@ -48,10 +48,19 @@ def imp_deck(g):
             cell['impsrc'] = 'data'
         cells.append(cell)
     deck = {'cells': cells, 'surfs': surfs, 'impcards': []}
+    # plain values are written as integers or, in every third deck, as reals ('1.0', '2.', '0.0'): same numbers
+    style = (len(g['tokN']) + g['ncell'] + len(g['tokP'])) % 3
+    def spell(toks):
+        out = [tok_text(t) for t in toks]
+        if style == 1:
+            out = [w + '.0' if w.isdigit() else w for w in out]
+        elif style == 2:
+            out = [w + '.' if w.isdigit() else w for w in out]
+        return out
     if g['mode'] in ('data1', 'data2'):
-        deck['impcards'].append({'par': 'n', 'tokens': [tok_text(t) for t in g['tokN']]})
+        deck['impcards'].append({'par': 'n', 'tokens': spell(g['tokN'])})
     if g['mode'] == 'data2':
-        deck['impcards'].append({'par': 'p', 'tokens': [tok_text(t) for t in g['tokP']]})
+        deck['impcards'].append({'par': 'p', 'tokens': spell(g['tokP'])})
     deck['feat'] = {'mode': g['mode'], 'withu': g['withu'],
                     'shorthand': any(t[0] != 'v' for t in g['tokN'] + g['tokP'])}
     return deck
